@@ -158,10 +158,12 @@ static void cd_case(const unsigned char *a, int gave_up, int type) {          /*
   htp_header_t *h = calloc(1, sizeof(*h));
   if (!parser || !part || !h) { free(parser); free(part); free(h); return; }
   part->parser = parser; part->type = type;
-  part->headers = htp_table_create(4);                                         /* as htp_mpart_part_create */
+  C18_MK_TABLE(part->headers, 8);                                              /* = htp_table_create(4), see c18_alloc.h */
   h->name = bstr_dup_c("content-disposition"); h->value = c18_bstr(CDN, a);
-  if (!part->headers || !h->name || !h->value || htp_table_add(part->headers, h->name, h) != HTP_OK) {   /* as htp_mpartp_parse_header */
-    bstr_free(h->name); bstr_free(h->value); free(h); htp_mpart_part_destroy(part, 0); free(parser); return; }
+  bstr *key = h->name ? bstr_dup(h->name) : NULL;                              /* htp_mpartp_parse_header: htp_table_add(part->headers, h->name, h) copies the key */
+  if (!part->headers || !h->name || !h->value || !key) {
+    bstr_free(key); bstr_free(h->name); bstr_free(h->value); free(h); htp_mpart_part_destroy(part, 0); free(parser); return; }
+  C18_TABLE_PUT(part->headers, key, h, HTP_TABLE_KEYS_COPIED);
   htp_status_t rc = htp_mpart_part_parse_c_d(part);
   VASSERT(rc == HTP_OK || rc == HTP_DECLINED || rc == HTP_ERROR, "OK, DECLINED or ERROR");
 #ifdef KNOWN_F_C18_MPART_CD_FILE
@@ -176,7 +178,7 @@ void HARNESS(void) { unsigned char in[CDN]; int gave_up, type;
   VASSUME(in[0] == 'f' && in[1] == 'o' && in[2] == 'r' && in[3] == 'm' && in[4] == '-' && in[5] == 'd' && in[6] == 'a' && in[7] == 't' && in[8] == 'a');
   cd_case(in, gave_up, type); CANARY(); }'''
 lem('c18_mpart_cd', ['htp_multipart.c'], CD_H,
-    'htp_mpart_part_parse_c_d ; htp_mpart_part_destroy on a part built like htp_mpart_part_create/htp_mpartp_parse_header build it: name, file record and file name are freed exactly once whichever allocation fails and wherever the syntax check gives up; no leak',
+    'htp_mpart_part_parse_c_d ; htp_mpart_part_destroy on a part laid out as htp_mpart_part_create/htp_mpartp_parse_header lay it out (header table with copied key, built field by field): name, file record and file name are freed exactly once whichever allocation fails and wherever the syntax check gives up; no leak',
     ['C-D header value: "form-data" followed by every byte string of exactly CDN-9 bytes (room for name and filename parameters in either order, repeated and unknown parameters, broken quoting)',
      'real htp_table.c, htp_list.c, bstr.c linked; part type and gave_up_data arbitrary',
      'KNOWN_F_C18_MPART_CD_FILE: the harness NULLs part->file when it is a dead pointer after an HTP_ERROR return (finding c18_mpart_cd_file); everything else is checked'],
